@@ -397,7 +397,7 @@ func FlattenEventLists(eventslist []*EventList) (*EventList, error) {
 
 type compressedEventList struct {
 	Index      uint64     `json:"i"`
-	ParentHash Hash       `json:"hash"`
+	ParentHash Hash       `json:"hash,omitempty"` // absent for an empty list (an empty string is not a multihash)
 	E          []*big.Int `json:"e"`
 }
 
